@@ -452,7 +452,8 @@ def run(ctx):
         traces.append(to_trace(fk["events"]))
         metas.append({"kind": "fork", "behaviour": behrec, "events": fk["events"]})
     ctx.cov["forks_executed"] = nfork
-    if nfork == 0:
+    if nfork == 0 and not ctx.violations:
+        # (sub-processes that crashed before reaching their fork steps are violations already)
         raise core.MachineryError("no fork scenario was executed")
     bad = validate(ctx, traces)
     for k, v, pos in bad:
